@@ -140,3 +140,75 @@ def c18_cases(run):
     run.stats_extra["c18_prefix_runs"] = len(jobs)
     run.stats_extra["c18_worst_exit_latency_s"] = round(worst, 3)
     return pairs, violations
+
+
+# ---------------------------------------------------------------------------------------
+# C19: framing independent of chunking (binary level)
+# ---------------------------------------------------------------------------------------
+
+NONASCII_DOC = "// Kommentar: é € 😀\nproc main() {\n    var ä: int;\n    printi('€');\n    x := 1;\n}\n"
+
+
+def c19_session(variant):
+    uri = "file:///verif/ä.spl" if variant % 2 else URI
+    msgs = [
+        lc.request(1, "initialize", INIT_PARAMS_DIAG),
+        lc.notification("initialized", {}),
+        lc.notification("textDocument/didOpen", {"textDocument": {"uri": uri, "languageId": "spl", "version": 1, "text": NONASCII_DOC}}),
+        lc.request(2, "textDocument/hover", {"textDocument": {"uri": uri}, "position": {"line": 1, "character": 6}}),
+        lc.request(3, "textDocument/foldingRange", {"textDocument": {"uri": uri}}),
+        lc.notification("textDocument/didChange", {"textDocument": {"uri": uri, "version": 2},
+                                                   "contentChanges": [{"range": {"start": {"line": 4, "character": 4}, "end": {"line": 4, "character": 5}}, "text": "ä" * (1 + variant)}]}),
+        lc.request(4, "textDocument/semanticTokens/full", {"textDocument": {"uri": uri}}),
+        lc.request(5, "foo/bar", {"pad": "x" * (90 * variant)}),
+        lc.request(6, "shutdown"),
+        lc.notification("exit"),
+    ]
+    return b"".join(lc.frame(m) for m in msgs)
+
+
+def projections(r):
+    resp = [m for m in r["messages"] if "id" in m and "method" not in m]
+    notes = [m for m in r["messages"] if "method" in m]
+    return json.dumps(resp, sort_keys=True), json.dumps(notes, sort_keys=True), r["rc"]
+
+
+def c19_cases(run):
+    rng = random.Random(run.seed)
+    thorough = run.tier == "thorough"
+    violations = []
+    n_runs = 0
+    for variant in range(3 if thorough else 2):
+        data = c19_session(variant)
+        base = lc.run_session([data], timeout=20)
+        if base["timed_out"] or base["problems"] or base["rc"] != 0:
+            violations.append(("binary", f"SESSION {variant} unsplit", f"rc={base['rc']} problems={base['problems']} timed_out={base['timed_out']}", "", "baseline session failed"))
+            continue
+        want = projections(base)
+        jobs = []
+        stride = 1 if thorough else 7
+        for i in range(1 + (variant % stride), len(data), stride):
+            jobs.append(("split2", [data[:i], data[i:]], f"{i}"))
+        for _ in range(400 if thorough else 40):
+            cuts = sorted(rng.sample(range(1, len(data)), rng.randrange(2, 12)))
+            chunks = [data[a:b] for a, b in zip([0] + cuts, cuts + [len(data)])]
+            jobs.append(("splitk", chunks, ",".join(map(str, cuts))))
+        jobs.append(("bytewise", [bytes([b]) for b in data], "1"))
+        jobs.append(("delayed3", [data[:37], data[37:401], data[401:]], "37,401"))
+
+        def one(job):
+            kind, chunks, desc = job
+            delay = 0.002 if kind == "delayed3" else 0.0
+            return lc.run_session(chunks, timeout=30, delay=delay)
+
+        with ThreadPoolExecutor(max_workers=16) as ex:
+            results = list(ex.map(one, jobs))
+        for (kind, chunks, desc), r in zip(jobs, results):
+            n_runs += 1
+            got = projections(r) if not (r["timed_out"] or r["problems"]) else None
+            if got != want:
+                violations.append(("binary", f"SESSION {variant} {kind} {desc} " + " ".join(c.hex() for c in chunks[:3])[:4000],
+                                   f"rc={r['rc']} timed_out={r['timed_out']} problems={r['problems']} messages={len(r['messages'])}",
+                                   f"unsplit: rc={base['rc']} messages={len(base['messages'])}", "responses differ under this segmentation"))
+    run.stats_extra["c19_binary_runs"] = n_runs
+    return [], violations
